@@ -146,6 +146,9 @@ func (p *PTN) InitialPosition() (*tak.Position, error) {
 	if e != nil {
 		return nil, fmt.Errorf("bad size: %s", sizeTag)
 	}
+	if size < 3 || size > 8 {
+		return nil, fmt.Errorf("bad size: %d", size)
+	}
 	tps := p.FindTag("TPS")
 	var out *tak.Position
 	if tps == "" {
